@@ -122,27 +122,40 @@ impl<T: ZeroCopy + DeserializeInner, const N: usize> DeserializeHelper<Zero> for
     }
 }
 
+/// The initialized prefix of an array being deserialized item by item: if
+/// deserialization of a later item fails or panics, the items already built
+/// are dropped instead of being leaked.
+struct PartialArray<T> {
+    items: *mut T,
+    len: usize,
+}
+
+impl<T> Drop for PartialArray<T> {
+    fn drop(&mut self) {
+        // SAFETY: the first len items have been initialized.
+        unsafe {
+            core::ptr::drop_in_place(core::ptr::slice_from_raw_parts_mut(self.items, self.len));
+        }
+    }
+}
+
 impl<T: DeepCopy + DeserializeInner, const N: usize> DeserializeHelper<Deep> for [T; N] {
     type FullType = Self;
     type DeserType<'a> = [<T as DeserializeInner>::DeserType<'a>; N];
     #[inline(always)]
     fn _deserialize_full_inner_impl(backend: &mut impl ReadWithPos) -> deser::Result<Self> {
         let mut res = MaybeUninit::<[T; N]>::uninit();
-        let items = res.as_mut_ptr() as *mut T;
+        let mut built = PartialArray {
+            items: res.as_mut_ptr() as *mut T,
+            len: 0,
+        };
         for i in 0..N {
-            match T::_deserialize_full_inner(backend) {
-                // SAFETY: i < N, so the item lies within the array.
-                Ok(item) => unsafe { items.add(i).write(item) },
-                Err(e) => {
-                    // SAFETY: the first i items have been initialized above;
-                    // they must be dropped, or their memory would be leaked.
-                    for j in 0..i {
-                        unsafe { items.add(j).drop_in_place() };
-                    }
-                    return Err(e);
-                }
-            }
+            let item = T::_deserialize_full_inner(backend)?;
+            // SAFETY: i < N, so the item lies within the array.
+            unsafe { built.items.add(i).write(item) };
+            built.len = i + 1;
         }
+        core::mem::forget(built);
         // SAFETY: all N items have been initialized.
         Ok(unsafe { res.assume_init() })
     }
@@ -151,21 +164,17 @@ impl<T: DeepCopy + DeserializeInner, const N: usize> DeserializeHelper<Deep> for
         backend: &mut SliceWithPos<'a>,
     ) -> deser::Result<<Self as DeserializeInner>::DeserType<'a>> {
         let mut res = MaybeUninit::<<Self as DeserializeInner>::DeserType<'_>>::uninit();
-        let items = res.as_mut_ptr() as *mut <T as DeserializeInner>::DeserType<'a>;
+        let mut built = PartialArray {
+            items: res.as_mut_ptr() as *mut <T as DeserializeInner>::DeserType<'a>,
+            len: 0,
+        };
         for i in 0..N {
-            match T::_deserialize_eps_inner(backend) {
-                // SAFETY: i < N, so the item lies within the array.
-                Ok(item) => unsafe { items.add(i).write(item) },
-                Err(e) => {
-                    // SAFETY: the first i items have been initialized above;
-                    // they must be dropped, or their memory would be leaked.
-                    for j in 0..i {
-                        unsafe { items.add(j).drop_in_place() };
-                    }
-                    return Err(e);
-                }
-            }
+            let item = T::_deserialize_eps_inner(backend)?;
+            // SAFETY: i < N, so the item lies within the array.
+            unsafe { built.items.add(i).write(item) };
+            built.len = i + 1;
         }
+        core::mem::forget(built);
         // SAFETY: all N items have been initialized.
         Ok(unsafe { res.assume_init() })
     }
